@@ -74,7 +74,7 @@ CONFIG = dict(
                    "rib4", "rib6", "attrlen-0", "attrlen-some", "attrlen-max", "attrlen-over", "(panic)",
                    "ev-rm", "ev-out", "ev-loc", "ev-mrt", "ev-down", "ev-flush", "ev-dump", "pre", "post",
                    "sess-none", "sess-hold", "sess-fsm", "sess-admin", "sess-io", "sess-remote", "sess-local",
-                   "fmsgs-0", "fmsgs-1", "fmsgs-4", "dpeers-0", "dpeers-1", "dpeers-2", "dpeers-4", "dchg4-0", "dchg4-3",
+                   "fmsgs-0", "fmsgs-2", "fmsgs-4", "dpeers-0", "dpeers-1", "dpeers-2", "dpeers-4", "dchg4-0", "dchg4-3",
                    "dchg6-0", "dchg6-3"],
     trusted_base=["model Rbgp/Mon2/Model.lean of packet/src/bmp.rs (BmpCodec::encode, PerPeerHeader::encode, "
                   "PeerDownReason::encode), packet/src/mrt.rs (MrtCodec::encode, MpHeader::encode, encode_table_dump, "
